@@ -296,6 +296,22 @@ Example C14_sticky_freed_worker_takes_next :
         [EQDepth 0; EQActive 1; EQCap 1]; []; [EQDepth 1; EQActive 1; EQCap 1]] = [AIdleBacklog 8].
 Proof. vm_compute. repeat split; reflexivity. Qed.
 
+(* ---- round robin across a shrink: two jobs leave the cursor at worker 2, the pool shrinks to 2, the
+   cursor wraps and job 3 runs on worker 0. A history in which job 3 waits in the factory queue while
+   both workers idle is rejected (judged where the model's own run is clean, lib/c14.py). *)
+Definition rr14 := mk_config RRoundRobin false [] [].
+Definition cursor_ops :=
+  [ODispatch 1 1 None false; ODispatch 2 2 None false; OComplete 1; OComplete 2; OResize 2;
+   ODispatch 3 3 None false; OQuery].
+Example C14_round_robin_cursor_wraps_after_shrink :
+  scenario_events rr14 3 None [] cursor_ops
+  = [[EStart 1 1 1]; [EStart 2 2 2]; [EEnd 1 1 1]; [EEnd 2 2 2]; []; [EStart 3 0 0]; [EQDepth 0; EQActive 1; EQCap 1]]
+  /\ check_C14 rr14 3 None cursor_ops (scenario_events rr14 3 None [] cursor_ops) = []
+  /\ check_C14 rr14 3 None cursor_ops
+       [[EStart 1 1 1]; [EStart 2 2 2]; [EEnd 1 1 1]; [EEnd 2 2 2]; []; []; [EQDepth 1; EQActive 0; EQCap 2]]
+     = [AIdleBacklog 6].
+Proof. vm_compute. repeat split; reflexivity. Qed.
+
 Print Assumptions C14_custom_in_pool.
 Print Assumptions C14_custom_empty_pool.
 Print Assumptions C14_key_persistent_hash_in_pool.
